@@ -239,10 +239,10 @@ def _r066_closure(ctx, prog, rt):
     """retain closure of retract_tasks: push(id) and `false` (remove) on the contains()==true edge only."""
     from hqrules.templates import guard_edges, dominated_by_edges
     from hqrules.core import op_const
-    cl = [prog.bodies[p] for p in prog.with_closures(rt.path) if p != rt.path and prog.bodies[p].locals[0][0] == 'bool']
+    SETC = {'hashbrown::set::HashSet::contains', 'std::collections::hash::set::HashSet::contains'}
+    cl = [prog.bodies[p] for p in prog.with_closures(rt.path) if p != rt.path and prog.bodies[p].locals[0][0] == 'bool' and prog.bodies[p].call_blocks(SETC) and prog.bodies[p].call_blocks('alloc::vec::Vec::push')]
     ctx.require(cl, 'R06.6: retain closure of retract_tasks')
     b = cl[0]
-    SETC = {'hashbrown::set::HashSet::contains', 'std::collections::hash::set::HashSet::contains'}
     e_t, calls = guard_edges(b, SETC, True)
     push = b.call_blocks('alloc::vec::Vec::push')
     ctx.require(e_t and push, 'R06.6: contains()/push in the retain closure')
